@@ -1,8 +1,167 @@
-(* C15 - stub while the model is being validated *)
+(* C15 - The terminal emulator survives any output and tracks a VT100 faithfully.
+   Only statements here; every proof is an [exact]/[apply] into Proofs/VTermProofs.v.
+   The model (Model/VTerm.v) mirrors urwid/vterm.py:TermCanvas function by function; its CSI table,
+   constrain_coords and the DEC special-character map are regenerated from the source on every run
+   (Gen/vterm_csi_gen.v); the rest is tied to the code by the whole-state correspondence of
+   harness/props/c15.py.
+
+   A session is any list of operations: Feed bytes (Terminal.feed -> addstr), Resize w h, ScrollBuf /
+   ScrollReset (page up / page down / any key) and Focus.  All theorems quantify over ALL sessions from
+   a freshly constructed terminal - every byte string, every chunking, every interleaving of resizes to
+   sizes >= 1x1 - without any bound on lengths or parameters.  Since every prefix of a session is a
+   session, what is stated of the final state holds after every operation. *)
 From Coq Require Import ZArith List Bool.
 Import ListNotations.
-From Urwid Require Import PyBase VTerm VT100Ref VTermRefine.
+From Urwid Require Import PyBase PyList vterm_csi_gen VTerm VT100Ref VTermRefine VTermListFacts VTermProofs.
 Open Scope Z_scope.
-Theorem stub_c15 : run_case [] = [-2].
-Proof. reflexivity. Qed.
-Print Assumptions stub_c15.
+
+(* --- clause 1: never raises; the grid is exactly height x width (so is the view handed to the renderer,
+       scrolled back or not); cursor, canvas cursor and scrolling region are inside; every reply written
+       to the pty matches  ESC[0n | ESC[?6c | ESC[[1-9][0-9]*;[1-9][0-9]*R  (reply_wf_b).
+       [Ok] also means: no IndexError from any list access, no AttrSpecError from any SGR sequence, the
+       tab loop had enough fuel. --- *)
+Theorem vterm_safe :
+  forall w h e ops, 1 <= w -> 1 <= h -> Forall op_ok ops ->
+  exists s, run (init w h e) ops = Ok s /\
+    (width s, height s) = size_after (w, h) ops /\
+    zlen (term s) = height s /\ Forall (fun r : row => zlen r = width s) (term s) /\
+    zlen (content s) = height s /\ Forall (fun r : row => zlen r = width s) (content s) /\
+    0 <= fst (cur s) < width s /\ 0 <= snd (cur s) < height s /\
+    match cursor s with None => True | Some (x, y) => 0 <= x < width s /\ 0 <= y < height s end /\
+    (0 <= sr_start s /\ sr_start s <= sr_end s /\ sr_end s < height s) /\
+    0 <= sup s <= zlen (sb s) /\
+    Forall (fun ev => match ev with Respond r => reply_wf_b r = true | _ => True end) (events s).
+Proof.
+  intros w h e ops Hw Hh Ho.
+  pose proof (run_size ops (init w h e) (init_Inv w h e Hw Hh) Ho) as R.
+  destruct (run (init w h e) ops) as [s|]; [|contradiction]. destruct R as (I & Z).
+  exists s. split; [reflexivity|].
+  pose proof (init_wh w h e) as Q. pose proof (f_equal fst Q) as Qw. pose proof (f_equal snd Q) as Qh.
+  cbn [fst snd] in Qw, Qh. rewrite Qw, Qh in Z.
+  pose proof (content_dims s I) as [C1 C2].
+  destruct I. repeat split; auto; try tauto.
+  eapply Forall_impl; [|eassumption]. intros [r| | |] Hr; auto. apply wf_event_reply. exact Hr.
+Qed.
+Print Assumptions vterm_safe.
+
+(* --- clause 1, chunking: feeding a stream in pieces equals feeding it whole, at any point of any session --- *)
+Theorem chunking_irrelevant :
+  forall w h e pre chunks post, 1 <= w -> 1 <= h -> Forall op_ok pre ->
+  run (init w h e) (pre ++ map Feed chunks ++ post) = run (init w h e) (pre ++ Feed (concat chunks) :: post).
+Proof. exact chunking_from_init. Qed.
+Print Assumptions chunking_irrelevant.
+
+(* --- clause 3: lines scrolled off the top are kept, in order.
+       (a) a scroll moves exactly the departing top line of the region to the end of the scrollback
+           (sb_push = append, dropping the oldest line at the deque's maxlen); --- *)
+Theorem scrollback_in_order_scroll :
+  forall s s', scroll s false = Ok s' ->
+  exists line, nthz (term s) (norm_index (zlen (term s)) (sr_start s)) = Some line /\ sb s' = sb_push (sb s) line.
+Proof. exact scroll_appends. Qed.
+Print Assumptions scrollback_in_order_scroll.
+
+(*     (b) whatever a hosted program writes, in any reachable state: the new scrollback is a suffix of the
+           old scrollback followed by new lines - nothing is reordered, rewritten or dropped except the
+           oldest lines; --- *)
+Theorem scrollback_in_order :
+  forall w h e ops s data s', 1 <= w -> 1 <= h -> Forall op_ok ops ->
+  run (init w h e) ops = Ok s -> addstr s data = Ok s' ->
+  exists k new, 0 <= k <= zlen (sb s ++ new) /\ sb s' = dropz k (sb s ++ new).
+Proof.
+  intros w h e ops s data s' Hw Hh Ho Hr Ha. apply SbExt_suffix. eapply addstr_scrollback; [|exact Ha].
+  pose proof (run_Safe ops (init w h e) (init_Inv w h e Hw Hh) Ho) as S. rewrite Hr in S. exact S.
+Qed.
+Print Assumptions scrollback_in_order.
+
+(*     (c) and they are shown when the view is scrolled back by k = sup s lines: the view is rows
+           [len - k, len - k + height) of scrollback ++ screen, each padded / cut to the width. --- *)
+Theorem scrolled_back_view :
+  forall w h e ops s, 1 <= w -> 1 <= h -> Forall op_ok ops -> run (init w h e) ops = Ok s ->
+  content s = if sup s =? 0 then term s
+              else map (fit_line s) (takez (height s) (dropz (zlen (sb s) - sup s) (sb s ++ term s))).
+Proof.
+  intros w h e ops s Hw Hh Ho Hr. apply content_spec.
+  pose proof (run_Safe ops (init w h e) (init_Inv w h e Hw Hh) Ho) as S. rewrite Hr in S. exact S.
+Qed.
+Print Assumptions scrolled_back_view.
+
+(* --- clause 2: equality with the reference VT100 (Model/VT100Ref.v) on the subset of the property.
+       Stated in full and NOT proved: it is decided only by running the implementation, the extracted
+       emulator model and the extracted reference against each other (harness/props/c15.py: every
+       generated command list of the subset, plus the sequences of corpus/C15 that failed before the
+       fix: commits eed25b8..7c4256d).  [ambiguous] marks the points on which terminals of the VT100
+       family themselves differ (LF/RI with the last-column flag set, CUU/CUD across a margin of a
+       partial region); the statement stops before them. --- *)
+Fixpoint unambiguous (v : vt) (cs : list cmd) : bool :=
+  match cs with [] => true | c :: r => negb (ambiguous v c) && unambiguous (exec v c) r end.
+Definition vterm_refines_vt100_full : Prop :=
+  forall w h e cs, 1 <= w -> 1 <= h -> forallb cmd_ok cs = true -> unambiguous (vt_init w h) cs = true ->
+  exists s, run (init w h e) [Feed (enc_cmds cs)] = Ok s /\ agrees s (run_ref (vt_init w h) cs) = true.
+
+(* the formerly failing sequences, and a mixed one, now agree (closed computations; these are tests of the
+   two models against each other, not a proof of the statement above) *)
+Definition agree_on (w h : Z) (cs : list cmd) : bool :=
+  unambiguous (vt_init w h) cs &&
+  match run (init w h 1) [Feed (enc_cmds cs)] with
+  | Ok s => agrees s (run_ref (vt_init w h) cs)
+  | Err _ => false
+  end.
+Definition text (l : list Z) : list cmd := map CCh l.
+Example refines_insert_line :
+  agree_on 4 4 (text [97; 97] ++ [CCr; CLf] ++ text [98; 98] ++ [CCr; CLf] ++ text [99] ++ [CCr; CLf] ++ text [100]
+                ++ [CCup 2 1; CIl (-1); CStbm 1 2; CCup 4 1; CIl 1; CDl 3]) = true.
+Proof. vm_compute. reflexivity. Qed.
+Example refines_erase_display_1 : agree_on 4 1 (text [97; 98; 99; 100] ++ [CCup 1 3; CEd 1]) = true.
+Proof. vm_compute. reflexivity. Qed.
+Example refines_wrap_flag_cleared : agree_on 3 2 (text [97; 98; 99] ++ [CCup 1 3; CCh 88; CCuu 0; CCh 89; CCh 90]) = true.
+Proof. vm_compute. reflexivity. Qed.
+Example refines_one_column : agree_on 1 3 (text [97; 98; 99; 100]) = true.
+Proof. vm_compute. reflexivity. Qed.
+Example refines_wrap_below_region : agree_on 2 3 ([CStbm 1 2; CCup 3 1] ++ text [120; 121; 122]) = true.
+Proof. vm_compute. reflexivity. Qed.
+Example refines_mixed :
+  agree_on 5 3 ([CSgr [1; 31]; CCh 97; CSgr [0; 44]; CCh 98; CCup 9999 9999; CCh 99; CCh 100; CEl 1; CRi; CRi; CRi;
+                 CIch 2; CDch 1; CStbm 2 3; CCh 101; CLf; CLf; CLf; CEd 0; CCub 9; CCuf 2; CBs; CCh 102]) = true.
+Proof. vm_compute. reflexivity. Qed.
+
+(* --- the translated code is what the proofs are about --- *)
+Theorem constrain_coords_in_range :
+  forall width height cs sr_start sr_end x y ign,
+  1 <= width -> 1 <= height -> 0 <= sr_start /\ sr_start <= sr_end /\ sr_end < height ->
+  0 <= fst (constrain_coords_gen width height cs sr_start sr_end x y ign) < width /\
+  0 <= snd (constrain_coords_gen width height cs sr_start sr_end x y ign) < height.
+Proof.
+  intros wd ht cs a b x y ign Hw Hh Hr.
+  exact (constrain_range (mkSt wd ht [] (0, 0) None false [] 0 None [] [] false 0 None charset_new None None false a b []
+                                (mkModes false false false false false cs true true false 1) [] 0) x y ign Hw Hh Hr).
+Qed.
+Print Assumptions constrain_coords_in_range.
+
+Theorem csi_defaults_nonnegative : forall c n d t, csi_table c = Some (n, d, t) -> 0 <= d.
+Proof. exact csi_table_default. Qed.
+Print Assumptions csi_defaults_nonnegative.
+
+(* --- non-vacuity: the hypotheses are met and the model computes something --- *)
+Example a_session_is_admissible :
+  Forall op_ok [Focus true; Feed [27; 91; 54; 110]; Resize 7 2; ScrollBuf true None; Feed [104; 105]].
+Proof. repeat constructor; cbv; discriminate. Qed.
+
+Example model_answers_a_cursor_position_query :
+  match run (init 5 3 1) [Feed [97; 98; 13; 10; 99; 27; 91; 54; 110]] with
+  | Ok s => (cur s, events s) = ((1, 1), [Respond [27; 91; 50; 59; 50; 82]])
+  | Err _ => False
+  end.
+Proof. vm_compute. reflexivity. Qed.
+
+Example model_scrolls_lines_into_the_scrollback :
+  match run (init 3 2 1) [Feed [97; 10; 98; 10; 99; 10; 100]; ScrollBuf true (Some 1)] with
+  | Ok s => (map (map (fun c : cell => snd c)) (sb s), sup s, map (map (fun c : cell => snd c)) (content s))
+            = ([[[97]; [32]; [32]]; [[32]; [98]; [32]]; [[32]; [32]; [99]]], 1, [[[32]; [32]; [99]]; [[32]; [32]; [32]]])
+  | Err _ => False
+  end.
+Proof. vm_compute. reflexivity. Qed.
+
+Example chunks_are_irrelevant_here :
+  run (init 4 2 0) [Feed [27]; Feed [91; 51]; Feed [49; 109; 226; 130]; Feed [172]]
+  = run (init 4 2 0) [Feed [27; 91; 51; 49; 109; 226; 130; 172]].
+Proof. vm_compute. reflexivity. Qed.
